@@ -1181,8 +1181,22 @@ func (x *Exec) gotoBlock(st *State, b *ssa.BasicBlock) bool {
 	fr := st.top()
 	// leave loops that do not contain b
 	for len(fr.Open) > 0 && !fr.Open[len(fr.Open)-1].Blocks[b] {
+		// an iteration that leaves the loop from its body (break) also satisfies the step clauses
+
 		// copy: the backing array may be shared with a forked state
 		fr.Open = append([]*Loop(nil), fr.Open[:len(fr.Open)-1]...)
+	}
+	// an iteration that leaves the loop through a break reaches the loop's exit block from
+	// outside the header: the `breakstep` clauses must hold there as well
+	for _, l := range x.P.Loops(fr.Fn) {
+		if fr.Block == l.Header || l.Blocks[b] {
+			continue
+		}
+		for _, succ := range l.Header.Succs {
+			if succ == b && !l.Blocks[succ] {
+				x.checkLoopStepsAt(st, fr, l, true)
+			}
+		}
 	}
 	for _, l := range x.P.Loops(fr.Fn) {
 		if l.Header != b {
@@ -1358,7 +1372,9 @@ func (x *Exec) recordLoopHead(st *State, fr *Frame, l *Loop) {
 	st.heads = nh
 }
 
-func (x *Exec) checkLoopSteps(st *State, fr *Frame, l *Loop) {
+func (x *Exec) checkLoopSteps(st *State, fr *Frame, l *Loop) { x.checkLoopStepsAt(st, fr, l, false) }
+
+func (x *Exec) checkLoopStepsAt(st *State, fr *Frame, l *Loop, atBreak bool) {
 	fc := x.contractOfFrame(fr)
 	if fc == nil {
 		return
@@ -1373,6 +1389,9 @@ func (x *Exec) checkLoopSteps(st *State, fr *Frame, l *Loop) {
 		label := cl.Label
 		if label == "" {
 			label = fmt.Sprint(i + 1)
+		}
+		if atBreak && cl.At != "break" {
+			continue
 		}
 		x.oblige(st, fmt.Sprintf("loop%d/step", l.Ordinal), label, cl.Props, x.evalBool(env, cl.Expr), cl.Where, cl.Src)
 	}
@@ -1612,6 +1631,11 @@ func (x *Exec) atReturn(st *State, res []*Value, ins *ssa.Return) {
 	fr := st.top()
 	fc := x.fc
 	if fc == nil {
+		return
+	}
+	if fc.NoReturn {
+		// a function declared noreturn must not reach a return
+		x.oblige(st, "post", "never_returns", fc.Props, "false", x.P.Pos(instrPos(ins)), "noreturn: no path reaches a return")
 		return
 	}
 	// in postconditions parameter names denote the values at entry
